@@ -39,8 +39,49 @@ def kind(f):
     return "?"
 
 
-def norm(x):
-    s = sx_str(x)
+def _alpha(f):
+    """parameter and local names of f -> canonical names: parameters by position, locals by what they are (type and initialiser, with
+    parameters already canonical) -- sibling specialisations may name and order their locals differently"""
+    m = {}
+    for n, p_ in enumerate(f.d.get("params", [])):
+        if p_[0]:
+            m[p_[0]] = "P%d" % n
+    decls = sorted((d for _, _, d in f.events(lambda d: d["k"] == "decl") if d["var"] not in m), key=lambda d: (d["line"], d.get("col", 0)))
+    pending = list(decls)
+    # iterate so that a local initialised from another local gets a stable signature
+    for _ in range(4):
+        sigs = {}
+        for d in pending:
+            ty = re.sub(r"\b(float|double)\b", "T", str(d.get("ty", "")))
+            init = sx_str(_rename(d["init"], m)) if d.get("init") is not None else ""
+            init = re.sub(r"\b(float|double)\b", "T", init)
+            sigs.setdefault(ty + "=" + init, []).append(d["var"])
+        done = False
+        for sig, vs in sorted(sigs.items()):
+            unresolved = [v for v in re.findall(r"[A-Za-z_][A-Za-z0-9_]*", sig.split("=", 1)[1]) if v in {d["var"] for d in pending}]
+            if unresolved:
+                continue
+            for k, v in enumerate(vs):
+                m[v] = "L[%s]#%d" % (sig, k)
+                done = True
+        pending = [d for d in pending if d["var"] not in m]
+        if not pending or not done:
+            break
+    for k, d in enumerate(pending):
+        m[d["var"]] = "L?%d" % k
+    return m
+
+
+def _rename(x, m):
+    if isinstance(x, list):
+        if len(x) == 2 and x[0] == "var" and x[1] in m:
+            return ["var", m[x[1]]]
+        return [_rename(y, m) for y in x]
+    return x
+
+
+def norm(x, m=None):
+    s = sx_str(_rename(x, m) if m else x)
     s = re.sub(r"\b(float|double)\b", "T", s)
     s = re.sub(r"\b[sdcz]([a-z0-9]+_)\b", r"X\1", s)
     s = re.sub(r'"[sdcz]([a-z0-9]+)"', r'"X\1"', s)
@@ -49,8 +90,9 @@ def norm(x):
 
 def trace(f):
     out = []
+    m = _alpha(f)
     for b, i, e in f.events(lambda e: e["k"] == "call" and LAPACK.match(str(e.get("fn", "")))):
-        out.append((e["fn"][1:], [norm(a) for a in call_args(e)], e))
+        out.append((e["fn"][1:], [norm(a, m) for a in call_args(e)], e))
     return out
 
 
